@@ -959,9 +959,9 @@ func extractEncoder(p *Program, typeName string) ([]string, []string) {
 			lcx := &layoutCtx{p: p, pkg: p.Root(), info: p.Root().TypesInfo, vars: map[types.Object]string{}}
 			var e2, x2 []string
 			if typeName == "Header" {
-				e2, x2 = extractHeaderEncoderSSA(p, ef, lcx)
+				e2, x2 = extractHeaderEncoderSSA(p, p.localInlined(ef), lcx)
 			} else {
-				e2, x2 = extractPacketEncoderSSA(p, ef)
+				e2, x2 = extractPacketEncoderSSA(p, p.localInlined(ef))
 			}
 			if len(x2)+len(lcx.errs) == 0 {
 				return e2, nil
@@ -979,9 +979,9 @@ func extractDecoder(p *Program, typeName string) ([]string, []string) {
 			lcx := &layoutCtx{p: p, pkg: p.Root(), info: p.Root().TypesInfo, vars: map[types.Object]string{}}
 			var d2, x2 []string
 			if typeName == "Header" {
-				d2, x2 = extractHeaderDecoderSSA(p, df, lcx)
+				d2, x2 = extractHeaderDecoderSSA(p, p.localInlined(df), lcx)
 			} else {
-				d2, x2 = extractPacketDecoderSSA(p, df)
+				d2, x2 = extractPacketDecoderSSA(p, p.localInlined(df))
 			}
 			x2 = append(x2, lcx.errs...)
 			hard := 0
@@ -1012,6 +1012,22 @@ func extractEncoderAST(p *Program, typeName string) ([]string, []string) {
 	var out []string
 	positional := map[int64]string{}
 	lc.encodeStmts(fd.Body.List, &out, positional)
+	retFrom := fd
+	if lc.buf == nil {
+		// a gate (validation) followed by `return recv.encode(), nil`: the bytes are written by that method of the
+		// same receiver; go on there
+		if last, ok := fd.Body.List[len(fd.Body.List)-1].(*ast.ReturnStmt); ok && len(last.Results) == 2 {
+			if call, ok := unparen(last.Results[0]).(*ast.CallExpr); ok && len(call.Args) == 0 {
+				if sel, ok := call.Fun.(*ast.SelectorExpr); ok && lc.obj(sel.X) == lc.recv {
+					if inner := findMethodDecl(pkg, typeName, sel.Sel.Name); inner != nil && inner.Body != nil && inner != fd && len(inner.Recv.List[0].Names) == 1 {
+						lc.setAlias(pkg.TypesInfo.Defs[inner.Recv.List[0].Names[0]], lc.recv)
+						lc.encodeStmts(inner.Body.List, &out, positional)
+						retFrom = inner
+					}
+				}
+			}
+		}
+	}
 	if lc.buf == nil {
 		lc.errs = append(lc.errs, "no output buffer found")
 		return nil, lc.errs
@@ -1038,8 +1054,11 @@ func extractEncoderAST(p *Program, typeName string) ([]string, []string) {
 	}
 	// the value returned must be the buffer
 	ok := false
-	for _, st := range fd.Body.List {
-		if ret, isRet := st.(*ast.ReturnStmt); isRet && len(ret.Results) == 2 && lc.obj(ret.Results[0]) == lc.buf {
+	for _, st := range retFrom.Body.List {
+		if ret, isRet := st.(*ast.ReturnStmt); isRet && len(ret.Results) >= 1 && len(ret.Results) <= 2 && lc.obj(ret.Results[0]) == lc.buf {
+			if retFrom == fd && len(ret.Results) != 2 {
+				continue
+			}
 			ok = true
 		}
 	}
@@ -1672,6 +1691,29 @@ func extractDecoderAST(p *Program, typeName string) ([]string, []string) {
 	}
 	ds := &decState{lc: lc, fixed: map[int64]string{}, lenVar: map[types.Object]string{}, bindings: map[string]string{}, listVar: map[types.Object]string{}, countVar: map[types.Object]string{}}
 	ds.stmts(fd.Body.List)
+	if len(ds.fixed) == 0 && !ds.cursor && len(ds.seq) == 0 {
+		// size gate, then `recv.decode(data)`: the reading is done by that method of the same receiver; go on there
+		var inner *ast.FuncDecl
+		ast.Inspect(fd.Body, func(n ast.Node) bool {
+			call, ok := n.(*ast.CallExpr)
+			if !ok || len(call.Args) != 1 || lc.obj(call.Args[0]) != lc.data || lc.data == nil {
+				return true
+			}
+			sel, ok := call.Fun.(*ast.SelectorExpr)
+			if !ok || lc.obj(sel.X) != lc.recv {
+				return true
+			}
+			if m := findMethodDecl(pkg, typeName, sel.Sel.Name); m != nil && m != fd && m.Body != nil && inner == nil {
+				inner = m
+			}
+			return true
+		})
+		if inner != nil && len(inner.Recv.List[0].Names) == 1 && len(inner.Type.Params.List) == 1 && len(inner.Type.Params.List[0].Names) == 1 {
+			lc.setAlias(pkg.TypesInfo.Defs[inner.Recv.List[0].Names[0]], lc.recv)
+			lc.setAlias(pkg.TypesInfo.Defs[inner.Type.Params.List[0].Names[0]], lc.data)
+			ds.stmts(inner.Body.List)
+		}
+	}
 	// linearise: fixed part by offset, then the cursor sequence
 	var out []string
 	var off int64
